@@ -39,6 +39,62 @@ def _limit_core(prog, f):
     return None, inc
 
 
+def _contrast_row(prog, f):
+    """(weight of the first fixed effect, weight of the others) of the row vector that multiplies self.beta in the unscale block, as texts '1' / '1/q' / '0' / other,
+    or None when the row is not built by an allocation of shape (1, q) plus constant stores"""
+    body = [s_ for st in body_nodoc(f.node) if isinstance(st, ast.If) and dump(st.test) == "unscale" for s_ in st.body]
+    prod = [n for s_ in body for n in ast.walk(s_) if (isinstance(n, ast.BinOp) and isinstance(n.op, ast.MatMult) and dump(n.right) in ("self.beta", "self._beta"))
+            or (isinstance(n, ast.Call) and isinstance(n.func, ast.Attribute) and n.func.attr == "dot" and n.args and dump(n.args[0]) in ("self.beta", "self._beta"))]
+    if len(prod) != 1:
+        return None
+    X = prod[0].left if isinstance(prod[0], ast.BinOp) else prod[0].func.value
+    if not isinstance(X, ast.Name):
+        return None
+    qnames = {"len(self.beta)", "self.beta.shape[0]", "len(self._beta)"}
+    for s_ in body:
+        if isinstance(s_, ast.Assign) and isinstance(s_.targets[0], ast.Name) and "".join(dump(s_.value).split()) in {"".join(q.split()) for q in qnames}:
+            qnames.add(s_.targets[0].id)
+
+    def wt(e):
+        t = "".join(dump(e).split())
+        if t in ("1", "1.0"):
+            return "1"
+        if t in ("0", "0.0"):
+            return "0"
+        for q in qnames:
+            q_ = "".join(q.split())
+            if t in ("1/%s" % q_, "1.0/%s" % q_, "1/float(%s)" % q_):
+                return "1/q"
+        return t[:20]
+    first = rest = None
+    for s_ in body:
+        if isinstance(s_, ast.Assign) and isinstance(s_.targets[0], ast.Name) and s_.targets[0].id == X.id and isinstance(s_.value, ast.Call):
+            d = prog.dotted(f.module, s_.value.func)
+            if d in ("numpy.empty",):
+                first = rest = None
+            elif d == "numpy.zeros":
+                first = rest = "0"
+            elif d == "numpy.ones":
+                first = rest = "1"
+            elif d == "numpy.full" and len(s_.value.args) >= 2:
+                first = rest = wt(s_.value.args[1])
+            else:
+                return None
+        elif isinstance(s_, ast.Assign) and isinstance(s_.targets[0], ast.Subscript) and isinstance(s_.targets[0].value, ast.Name) and s_.targets[0].value.id == X.id:
+            ix = "".join(dump(s_.targets[0].slice).split())
+            if ix in ("0,0", "(0,0)", ":,0"):
+                first = wt(s_.value)
+            elif ix in ("0,1:", "(0,1:)", ":,1:"):
+                rest = wt(s_.value)
+            elif ix in ("0", "0,:", ":", "...", ":,:"):
+                first = rest = wt(s_.value)
+            else:
+                return None
+    if first is None or rest is None:
+        return None
+    return (first, rest)
+
+
 def check_limits(prog, rep):
     for mod, cname in MODELS:
         K = prog.get_class(cname, mod)
@@ -77,6 +133,35 @@ def check_limits(prog, rep):
                 rep.violate("R1-limits", f.qualname, "the %s limit normalises to %s; its definition is %s" % (nm, got.show()[:160], ref.show()[:160]), where(f), txt, got.show()[:160])
             else:
                 rep.unrec("R1-limits", f.qualname, "limit written with operators the reference does not use: %s" % got.show()[:120])
+        # the intercept the limits are shifted by is the one breeding values carry: first fixed effect in full, the others averaged (the contrast gebv() uses)
+        if iu is not None:
+            try:
+                rv = VN(prog, fu)
+                for st_ in ast.parse("q = self.beta.shape[0]\nX = numpy.empty((1, q), dtype=self.beta.dtype)\nX[0, 0] = 1\nX[0, 1:] = 1 / q\nloc = (X @ self.beta).ravel()").body:
+                    rv.stmt(st_)
+                want_loc = rv.env["loc"]
+                alt = VN(prog, fu).expr(ast.parse("(X @ self.beta)[0]", mode="eval").body)
+                got_loc = iu - cu
+                rv2 = VN(prog, fu)
+                for st_ in ast.parse("q = self.beta.shape[0]\nX = numpy.empty((1, q), dtype=self.beta.dtype)\nX[0, 0] = 1\nX[0, 1:] = 1 / q\nloc = X @ self.beta").body:
+                    rv2.stmt(st_)
+                if got_loc in (want_loc, rv2.env["loc"]):
+                    rep.ok("R1-limits", K.qualname + "#location", "limits are shifted by the same intercept contrast as the breeding values ([1, 1/q, ...] . beta)")
+                elif comparable(got_loc, want_loc) or comparable(got_loc, rv2.env["loc"]):
+                    rep.violate("R1-limits", fu.qualname, "when unscale, the limits are shifted by %s, not by the intercept contrast of the breeding values ([1, 1/q, ..., 1/q] . beta): "
+                                "limits and breeding values are on different origins" % got_loc.show()[:100], where(fu), rv2.env["loc"].show()[:100], got_loc.show()[:100])
+                else:
+                    row = _contrast_row(prog, fu)
+                    if row is None:
+                        rep.unrec("R1-limits", K.qualname + "#location", "intercept term %s written with other operators" % got_loc.show()[:80])
+                    elif row == ("1", "1/q"):
+                        rep.ok("R1-limits", K.qualname + "#location", "limits are shifted by [1, 1/q, ...] . beta (row built as %s)" % (row,))
+                    else:
+                        rep.violate("R1-limits", fu.qualname, "when unscale, the limits are shifted by the fixed effects weighted (%s, %s, ...), not by the intercept contrast of the "
+                                    "breeding values (1, 1/q, ..., 1/q): with more than one fixed effect limits and breeding values are on different origins" % row, where(fu),
+                                    "(1, 1/q, ..., 1/q)", "(%s, %s, ...)" % row)
+            except (VNUnknown, KeyError) as e:
+                rep.unrec("R1-limits", K.qualname + "#location", "intercept term not evaluated: %s" % e)
         # same intercept term in both
         if iu is not None and il is not None:
             du, dl = iu - cu, il - cl
